@@ -579,6 +579,17 @@ theorem cells_wf (red : Reduction) (isInt : Bool) (d : Nat) (v : Rat) :
       simp only [Bool.false_eq_true, if_false]
       exact key _ _ _ (hint v.num).1 (c09_convert_intText v.num) (hint v.num).2
 
+/-- **history independence / read-only input**: in a sequence of writes of one frame array, what a write produces is
+what the same write produces on its own — whatever was written before (other subsets, reductions, widths) and after —
+and the frame array is the same afterwards. -/
+theorem writer_history_independent (chans : List ChanF) (before after : List WriteReq) (r : WriteReq) :
+    (writeSession chans (before ++ r :: after)).1[before.length]? = some (writeOne chans r) ∧
+    (writeSession chans (before ++ r :: after)).2 = chans ∧
+    (writeSession chans (before ++ r :: after)).1.length = before.length + 1 + after.length := by
+  refine ⟨?_, rfl, ?_⟩
+  · simp [writeSession]
+  · simp [writeSession]; omega
+
 /-! ### non-vacuity and necessity of the hypotheses of `roundtrip_file` -/
 
 section Examples
